@@ -249,6 +249,36 @@ class Gen:
                     del self.macs[u]
                     self.feat.add('undef')
                 self.define()
+        # D76 (recorded): a function-like macro name directly followed by an object-like macro with an empty replacement list is the
+        # deferred-invocation shape on which Prosser's hide sets and the context rule of gcc/clang differ; a '+' is put between them
+        import re
+        fn = set(); empty = set()
+        for l in self.lines:
+            m = re.match(r'#define (\w+)(\()?(.*)$', l)
+            if m:
+                if m.group(2):
+                    fn.add(m.group(1))
+                elif not m.group(3).strip():
+                    empty.add(m.group(1))
+        if fn and empty:
+            pat = re.compile(r'\b(%s)(\s+)(%s)\b' % ('|'.join(sorted(fn)), '|'.join(sorted(empty))))
+            for i, l in enumerate(self.lines):
+                head = ''
+                body = l
+                m = re.match(r'(#define \w+(\([^)]*\))?)(.*)$', l)
+                if m:
+                    head, body = m.group(1), m.group(3)
+                elif l.startswith('#'):
+                    continue
+                nb = body
+                while True:
+                    nb2 = pat.sub(lambda mm: mm.group(1) + ' + ' + mm.group(3), nb)
+                    if nb2 == nb:
+                        break
+                    nb = nb2
+                if nb != body:
+                    self.excl['D76'] = self.excl.get('D76', 0) + 1
+                    self.lines[i] = head + nb
         src = '\n'.join(self.lines) + '\n'
         # A '#' can see already-expanded material whenever some macro stringizes and some macro with parameters has a macro name in
         # its replacement list (directly or through any chain, an argument of the stringizing macro can then come from a parameter).
@@ -269,8 +299,9 @@ class C09:
     assumptions = ['gcc -E -P and clang -E -P (gnu11) agree on the token sequence; inputs either reference rejects are discarded (counted)',
                    'string literals produced by # are compared exactly when the operand is spelled in the invocation itself; when a macro that stringizes is invoked from the body of a macro with parameters (its operand can consist of already-expanded material, whose spacing 6.10.3.2p2 does not fix) the literals of that program are compared modulo white space',
                    'D56 (-E rejects pp-numbers that are not valid constants) excluded by its diagnostic when ## on forwarded arguments forms such a number (counted)',
-                   'recorded findings excluded by construction: D25 (two possibly-empty ## operands / placemarker chains), D27 (`, ## __VA_ARGS__`: operand macro-expanded first, comma dropped for a present-but-empty variable argument): decided per program: in a program that may use `, ## __VA_ARGS__` no macro is redefined and every variable argument is non-empty and made of plain tokens only']
-    excl = {'D56': 0, 'D27': 0}
+                   'recorded findings excluded by construction: D25 (two possibly-empty ## operands / placemarker chains), D27 (`, ## __VA_ARGS__`: operand macro-expanded first, comma dropped for a present-but-empty variable argument): decided per program: in a program that may use `, ## __VA_ARGS__` no macro is redefined and every variable argument is non-empty and made of plain tokens only',
+                   'D76 (deferred invocation: hide sets vs the context rule) recorded: a function-like macro name is never directly followed by an object-like macro whose replacement list is empty (a + is inserted, counted); D75 (__VA_OPT__ next to ##) recorded: not generated']
+    excl = {'D56': 0, 'D27': 0, 'D76': 0}
 
     def budget(self, tier):
         return 2500 if tier == 'quick' else 30000
